@@ -152,7 +152,7 @@ def configs(tier):
                             blocks=(('cmp', (('s', 2, 'obj'),)), b1), fb=None))
     # L: large networks (one change makes the simulator evaluate tens of blocks in one go)
     for shape in ('chain', 'fan', 'ladder', 'tree'):
-        for n in ((5, 17, 33, 70) if tier == 'quick' else (5, 16, 17, 18, 33, 49, 70, 130)):
+        for n in ((5, 17, 33, 70, 130, 300) if tier == 'quick' else (5, 16, 17, 18, 33, 49, 70, 101, 130, 300, 1100)):
             for order in ('asc', 'desc', 'stride'):
                 out.append(dict(large=(shape, n, order)))
     if tier == 'thorough':
